@@ -53,11 +53,11 @@ class SpatialTransform(DeviceProperty, Module, metaclass=ABCMeta):
     def __copy__(self: TSpatialTransform) -> TSpatialTransform:
         r"""Make shallow copy of this transformation.
 
-        The copy shares containers for parameters and hooks with this module, but not containers of
-        buffers and modules. References to currently set buffers and modules are however copied, but
-        adding/removing a buffer or module to/from the shallow copy will not modify the buffers and
-        modules of the original module. The same is the case for adding/removing buffers or modules
-        to/from the original module.
+        The copy shares containers for hooks with this module, but not containers of parameters,
+        buffers and modules. References to currently set parameters, buffers and modules are however
+        copied, but adding/removing/replacing a parameter, buffer or module to/from the shallow copy
+        will not modify the parameters, buffers and modules of the original module. The same is the
+        case for adding/removing parameters, buffers or modules to/from the original module.
 
         Returns:
             Shallow copy of this spatial transformation module.
@@ -65,7 +65,7 @@ class SpatialTransform(DeviceProperty, Module, metaclass=ABCMeta):
         """
         copy = self.__new__(type(self))
         copy.__dict__ = self.__dict__.copy()
-        for name in ("_buffers", "_non_persistent_buffers_set", "_modules"):
+        for name in ("_parameters", "_buffers", "_non_persistent_buffers_set", "_modules"):
             if name in self.__dict__:
                 copy.__dict__[name] = self.__dict__[name].copy()
         return copy
